@@ -91,3 +91,9 @@ package certgen
 //@ ghost func ipInCertNetblocks(cert *x509.Certificate, remoteAddr string) bool
 //@ func VerifyIPRestrictedX509CertIP
 //@   assume ret1 == nil ==> ret0 == ipInCertNetblocks(userCert, remoteAddr)
+// C10 / C11: whatever the address extension of an otherwise trusted certificate holds, reading it never panics
+//@   requires userCert != nil
+//@   nopanic @C10,C11
+//@ func ExtractIPNetsFromIPRestrictedX509
+//@   requires userCert != nil
+//@   nopanic @C10,C11
